@@ -16,6 +16,7 @@ import (
 
 	"github.com/pokt-network/posmint/crypto"
 	"github.com/pokt-network/posmint/crypto/keys"
+	"github.com/pokt-network/posmint/crypto/keys/mintkey"
 	sdk "github.com/pokt-network/posmint/types"
 
 	"verif/internal/chain"
@@ -654,6 +655,58 @@ func (c *c19) keybase(tier string) {
 }
 
 // C19 entry point.
+// rawKeys: private keys of both types given by their raw bytes (among them secp256k1 scalars with
+// leading zero bytes and the smallest scalar) survive the raw-bytes decoder and the encrypted armor:
+// same bytes, same public key and address, and a signature by the decoded key verifies under the
+// original public key.
+func (c *c19) rawKeys() {
+	seq := func(start byte, n int) []byte {
+		b := make([]byte, n)
+		for i := range b {
+			b[i] = start + byte(i)
+		}
+		return b
+	}
+	one := make([]byte, 32)
+	one[31] = 1
+	lead2 := append([]byte{0, 0}, seq(7, 30)...)
+	var ks []crypto.PrivateKey
+	for _, raw := range [][]byte{seq(0, 32), one, lead2, seq(1, 32), bytes.Repeat([]byte{0x7f}, 32)} {
+		var a [32]byte
+		copy(a[:], raw)
+		ks = append(ks, crypto.Secp256k1PrivateKey(a))
+	}
+	ks = append(ks, chain.Key(100), chain.Key(101), chain.Key(0), chain.Key(1))
+	msg := []byte("raw key round trip")
+	n := int64(0)
+	for i, k := range ks {
+		rep := map[string]interface{}{"key": i, "raw": fmt.Sprintf("%X", k.RawBytes())}
+		n++
+		k2, err := crypto.NewPrivateKeyBz(k.RawBytes())
+		if err != nil || !bytes.Equal(k2.RawBytes(), k.RawBytes()) || !bytes.Equal(k2.PublicKey().RawBytes(), k.PublicKey().RawBytes()) {
+			c.fail("C19|rawkey|decode-changes-key", fmt.Sprintf("key %d (%X): NewPrivateKeyBz(RawBytes()) gives another key (err %v)", i, k.RawBytes(), err), rep)
+			continue
+		}
+		if sig, err := k2.Sign(msg); err != nil || !k.PublicKey().VerifyBytes(msg, sig) {
+			c.fail("C19|rawkey|decoded-key-signature-does-not-verify", fmt.Sprintf("key %d: a signature by the decoded key does not verify under the original public key", i), rep)
+		}
+		n++
+		armor, err := mintkey.EncryptArmorPrivKey(k, "pw", "")
+		if err != nil {
+			c.fail("C19|rawkey|armor-error", fmt.Sprintf("key %d: %v", i, err), rep)
+			continue
+		}
+		k3, err := mintkey.UnarmorDecryptPrivKey(armor, "pw")
+		if err != nil || !bytes.Equal(k3.RawBytes(), k.RawBytes()) || !bytes.Equal(k3.PublicKey().Address(), k.PublicKey().Address()) {
+			c.fail("C19|rawkey|armor-roundtrip-changes-key", fmt.Sprintf("key %d (%X): armor round trip under the right passphrase gives another key / address (err %v)", i, k.RawBytes(), err), rep)
+		}
+		if _, err := mintkey.UnarmorDecryptPrivKey(armor, "pw "); err == nil {
+			c.fail("C19|rawkey|armor-opens-with-wrong-passphrase", fmt.Sprintf("key %d: the armor opens with a wrong passphrase", i), rep)
+		}
+	}
+	c.count("raw key round trips", n)
+}
+
 func C19(tier string) int {
 	run := ev.NewRun("C19", tier, "model_checking")
 	c := &c19{run: run, kinds: map[string]int64{}}
@@ -663,10 +716,12 @@ func C19(tier string) int {
 	saved := os.Stdout
 	if devnull, err := os.OpenFile(os.DevNull, os.O_WRONLY, 0); err == nil {
 		os.Stdout = devnull
+		c.rawKeys()
 		c.keybase(tier)
 		os.Stdout = saved
 		devnull.Close()
 	} else {
+		c.rawKeys()
 		c.keybase(tier)
 	}
 	run.Set("evaluations", c.eval)
@@ -678,7 +733,7 @@ func C19(tier string) int {
 	run.Set("keybase_programs", progs)
 	run.Set("by_part", c.kinds)
 	run.Set("observations_not_judged", c.notes)
-	run.Set("rule", "single keys: 2 ed25519 + 2 secp256k1 keys x 5 messages, every (key,message) signed, every (key,message,signature) triple verified, every single-bit flip / truncation / extension of every valid signature; multisig: 4 key sets (mixed types, nested), every component list of length n-1, n, n+1 over {correct component per position, foreign key, other message, empty, zero}, garbage encodings, builders by index and by key in every insertion order; keybase: every program of L operations over 25 operations (import, create, update, delete, sign, export object, export+import into a second keybase; right/wrong/empty/unicode/1 KiB passphrases) on the in-memory keybase, and a reduced alphabet on the directory-backed lazy keybase, against a map model address -> passphrase. evaluations = verifications + keybase programs; states = distinct final states of the keybase model (which address is stored under which passphrase, in both keybases) reached by the programs; transitions = keybase operations executed; traces_validated_against_impl = keybase programs (every one runs on the real keybase); distinct_nontrivial = keybase programs (distinct by construction) in which at least one operation succeeded and at least one was refused")
+	run.Set("rule", "single keys: 2 ed25519 + 2 secp256k1 keys x 5 messages, every (key,message) signed, every (key,message,signature) triple verified, every single-bit flip / truncation / extension of every valid signature; multisig: 4 key sets (mixed types, nested), every component list of length n-1, n, n+1 over {correct component per position, foreign key, other message, empty, zero}, garbage encodings, builders by index and by key in every insertion order; raw keys: 9 private keys incl. secp256k1 scalars with leading zero bytes through the raw-bytes decoder and the encrypted armor; keybase: every program of L operations over 30 operations (import, create, update, delete, sign, export object, export+import into a second keybase; right/wrong/empty/unicode/1 KiB passphrases) on the in-memory keybase, and a reduced alphabet on the directory-backed lazy keybase, against a map model address -> passphrase. evaluations = verifications + keybase programs; states = distinct final states of the keybase model (which address is stored under which passphrase, in both keybases) reached by the programs; transitions = keybase operations executed; traces_validated_against_impl = keybase programs (every one runs on the real keybase); distinct_nontrivial = keybase programs (distinct by construction) in which at least one operation succeeded and at least one was refused")
 	run.Sample(map[string]interface{}{"part": "multisig", "keys": "ed,nested,secp", "signatures": []string{"sig0", "foreign", "sig2"}, "oracle": "positional N-of-N rule with Tendermint primitives"})
 	run.Sample(map[string]interface{}{"part": "keybase", "program": []string{"importobj(key=5,\"pw\")", "update(key=5,\"bad\",\"new\")", "sign(key=5,\"pw\")"}})
 	run.Assume("Tendermint's ed25519/secp256k1 primitives are the trusted oracle for component signatures", "scrypt/AES-GCM are not re-verified; only the observable behaviour (opens with the right passphrase, not with another one) is checked")
